@@ -13,6 +13,7 @@ import (
 	"github.com/orbs-network/lean-helix-go/services/interfaces"
 	"github.com/orbs-network/lean-helix-go/services/messagesfactory"
 	"github.com/orbs-network/lean-helix-go/services/preparedmessages"
+	"github.com/orbs-network/lean-helix-go/services/storage"
 	"github.com/orbs-network/lean-helix-go/spec/types/go/primitives"
 	"github.com/orbs-network/lean-helix-go/spec/types/go/protocol"
 )
@@ -481,6 +482,32 @@ func suiteWire(c *Ctx) {
 		vcm := me.CreateViewChangeMessage(h, nv, pmsgs)
 		tV1 := fmt.Sprintf("V(%d;%d;%d;%d;%s;%s)", uint16(protocol.LEAN_HELIX_VIEW_CHANGE), uint64(inst), uint64(h), uint64(nv), tProof, tS(ids[1], sign(ids[1], vcHdrRaw(proofB))))
 		emit("viewchange-proof", "VC("+tV1+")", vcm, km)
+		// the same VIEW_CHANGE built the way the term builds it: the prepared messages come out of the library's own
+		// storage and extractor, and the log also holds a correctly signed PREPARE of that view for ANOTHER hash
+		// (a PREPARE is logged whatever its hash): every signature inside the proof must still verify after the
+		// round trip.  Monitor only (the order of the extracted PREPAREs is the storage's business).
+		{
+			st := storage.NewInMemoryStorage()
+			st.StorePreprepare(ppm)
+			otherHash := append(append([]byte{}, hash...), 0x5a)
+			st.StorePrepare(facts[len(facts)-1].CreatePrepareMessage(h, v, otherHash))
+			var cmem []interfaces.CommitteeMember
+			for _, id := range ids {
+				cmem = append(cmem, interfaces.CommitteeMember{Id: id, Weight: 1})
+			}
+			for _, pm := range pms {
+				st.StorePrepare(pm)
+			}
+			if ext := preparedmessages.ExtractPreparedMessages(h, v, st, cmem); ext != nil {
+				content := append([]byte{}, me.CreateViewChangeMessage(h, nv, ext).ToConsensusRawMessage().Content...)
+				if bad := wireSigFailures(km, content); len(bad) > 0 {
+					c.Violation("C20", "signature-lost-in-roundtrip", fmt.Sprintf("viewchange built from the prepared messages the extractor takes out of a log that also holds a PREPARE for another hash: signatures that verified when stored no longer verify over the re-read bytes: %v", bad), "content="+hex.EncodeToString(content))
+				}
+				c.Class("factory/viewchange-proof-extracted")
+			} else {
+				c.Class("factory/viewchange-proof-extracted/no-quorum")
+			}
+		}
 		vcm0 := me.CreateViewChangeMessage(h, nv, nil)
 		tV0 := fmt.Sprintf("V(%d;%d;%d;%d;-;%s)", uint16(protocol.LEAN_HELIX_VIEW_CHANGE), uint64(inst), uint64(h), uint64(nv), tS(ids[1], sign(ids[1], vcHdrRaw(nil))))
 		emit("viewchange", "VC("+tV0+")", vcm0, km)
